@@ -225,6 +225,23 @@ def r15_2(ctx: Ctx) -> RuleResult:
             rr.bad(b, b.node, f"builder `{name}` must append exactly one operation object to self.ops",
                    construct=f"{name}: append")
             continue
+        # ... on every path: the append is a statement of the body itself and nothing before it returns
+        top = [st for st in b.node.body if any(n is appends[0] for n in ast.walk(st))]
+        early = []
+        if top:
+            for st in b.node.body:
+                if st is top[0]:
+                    break
+                early += [n for n in ast.walk(st) if isinstance(n, ast.Return)]
+        if not top or not isinstance(top[0], ast.Expr) or early:
+            at = early[0] if early else appends[0]
+            from .common import path_conditions
+
+            conds = [short(t) if br else f"not ({short(t)})" for t, br in path_conditions(b.node, at)]
+            rr.bad(b, at, f"builder `{name}` does not append its operation on every path" + (f" (it returns early when `{' and '.join(conds)}`)" if early and conds else "")
+                   + ": a patch built with the method lacks an operation that the same patch loaded from its JSON form has",
+                   construct=f"{name}: operation not appended when {' and '.join(conds) or 'some condition holds'}")
+            continue
         ctor = appends[0].args[0]
         cname = callee_name(ctor)
         if cname != cls.name:
@@ -314,8 +331,8 @@ def _self_fields(e: ast.AST) -> List[ast.Attribute]:
     ]
 
 
-def r15_4(ctx: Ctx) -> RuleResult:
-    rr = RuleResult("R15.4", "stored operation values are never aliased into the document", floor=8)
+def r15_4(ctx: Ctx, rule: str = "R15.4") -> RuleResult:
+    rr = RuleResult(rule, "stored operation values are never aliased into the document", floor=8)
     pointer_fields = {"path", "source", "dest", "name"}
     for cls in op_classes(ctx):
         fn = cls.methods.get("apply")
